@@ -58,3 +58,5 @@ pub fn accept_none_counters() -> (u64, u64) {
 pub use crate::network::wire_hooks as wire;
 
 pub use crate::crypto::verif_hooks as crypto;
+
+pub use crate::network::active_peers_hooks as active_peers;
